@@ -443,13 +443,17 @@ func applyProfile(c *RunConfig, ch *simrt.Chooser, p string) {
 		// faults are brief losses of the leader's links (shorter than the lease), placed inside
 		// VerifyLeader / Apply / Barrier calls, and the odd partition
 		c.Voters = pick(ch, 2, 3, 3, 5)
-		c.NonVoters = pick(ch, 0, 0, 1)
+		c.NonVoters = pick(ch, 0, 1, 1)
 		c.Spares = 0
 		c.Clients = rangeInt(ch, 2, 4)
 		c.ShutdownOnRemove = false
 		c.ShutdownAtEnd = true
 		c.Ops = map[string]int{"apply": 10, "barrier": 3, "verify": 8, "getconfig": 1, "snapshot": 1, "restore": 1}
-		c.Faults = map[string]int{"blip_leader": 8, "partition": 1, "heal": 4}
+		// a leader left with its non-voters only must give up, and the calls made on it meanwhile must end
+		// (timed against the lease, which this calm profile allows: nothing but the network delays a server)
+		c.Faults = map[string]int{"blip_leader": 8, "partition": 1, "heal": 4, "cut_leader_from_voters": 2}
+		c.LeaseOracle = true
+		c.NotifyBuf = 8
 		c.LongDelayPct, c.SnapTruncPct = 0, 0
 		c.BugFSMSnapErrPct, c.BugPersistErrPct = 0, 0
 		c.DiskSlowPct, c.FSMSlowPct, c.NotifySlowPct = 0, 0, 0
